@@ -175,6 +175,9 @@ impl fmt::Display for FileLines {
 /// and ordered by their start point.
 fn normalize_ranges(ranges: &mut HashMap<FileName, Vec<Range>>) {
     for ranges in ranges.values_mut() {
+        // An empty range selects nothing, but it neither merges with its neighbours nor
+        // lets them merge with each other when it sorts between them.
+        ranges.retain(|range| !range.is_empty());
         ranges.sort();
         let mut result = vec![];
         let mut iter = ranges.iter_mut().peekable();
